@@ -57,9 +57,17 @@ _OPTIONAL_GENE_ATTRIBUTES = {
     "annotation": {},
 }
 
-_ORDERED_OPTIONAL_MODEL_KEYS = ["name", "compartments", "notes", "annotation"]
+_ORDERED_OPTIONAL_MODEL_KEYS = [
+    "name",
+    "objective_direction",
+    "compartments",
+    "notes",
+    "annotation",
+]
 _OPTIONAL_MODEL_ATTRIBUTES = {
     "name": None,
+    # only written for minimisation problems
+    "objective_direction": "max",
     #  "description": None, should not actually be included
     "compartments": [],
     "notes": {},
@@ -419,6 +427,13 @@ def model_from_dict(obj: Dict) -> Model:
     }
     set_objective(model, coefficients)
     for k, v in obj.items():
-        if k in {"id", "name", "notes", "compartments", "annotation"}:
+        if k in {
+            "id",
+            "name",
+            "notes",
+            "compartments",
+            "annotation",
+            "objective_direction",
+        }:
             setattr(model, k, v)
     return model
